@@ -30,6 +30,7 @@ for name in names:
                 res[prop] = {"rc": c.returncode, "lines": [l[:260] for l in lines]}
     finally:
         subprocess.call(["git", "-C", "/repo", "checkout", "--", "."])
+        subprocess.call(["git", "-C", "/repo", "clean", "-fdq", "--", "lib"])      # files the patch created
     prev = res_all.get(name, {})
     if len(props) < 20:
         merged = {k: v for k, v in prev.items() if k not in props}
